@@ -56,6 +56,22 @@ CompareResult(f) == IF CanGen(f) /\ Found(f) /\ stored[f] = G(src[f]) THEN 0 ELS
 Compare(f, github) == /\ exit' = CompareResult(f)
                       /\ wrote' = {} /\ UNCHANGED tree /\ Log(<<"compare", f, github>>)
 
+\* What compare prints in text mode: one verdict per rule file (the rule id and whether the stored
+\* regex is the generated one), in walk order, up to the first file that cannot be processed.
+RuleIdOf(f) == SubSeq(f, 1, 6)
+Verdict(f)  == << RuleIdOf(f), stored[f] = G(src[f]) >>
+RECURSIVE ReportFold(_)
+ReportFold(i) == IF i > Len(Files) THEN <<>>
+                 ELSE LET f == Files[i] IN
+                      IF ~Present(f) THEN ReportFold(i + 1)
+                      ELSE IF ~(CanGen(f) /\ Found(f)) THEN <<>>
+                      ELSE << Verdict(f) >> \o ReportFold(i + 1)
+\* (the tree is not changed by compare, so this may be evaluated before or after the step)
+Reports == IF last = <<>> THEN <<>>
+           ELSE IF last[1] = "compare-all" /\ ~last[2] THEN ReportFold(1)
+           ELSE IF last[1] = "compare" /\ ~last[3] /\ CanGen(last[2]) /\ Found(last[2]) THEN << Verdict(last[2]) >>
+           ELSE <<>>
+
 \* --all: text mode reports per rule but fails only when something cannot be processed;
 \* github mode fails when any rule is out of date
 CompareAll(github) ==
